@@ -73,13 +73,17 @@ def observe_accepted(ctx, mod, prog, source, stream, kind, coll, stats):
         err = c01_run.check_function(fp, extra_imports=[("this", 1)])
         stats["function_protos"] += 1
         if err is not None:
-            ctx.violation(f"C02:check_function:{classify_checker_error(err)}",
+            cls_f = classify_checker_error(err)
+            if cls_f != "nested-domain-not-imported" and c01_run.subgraph_lists_value_twice(fp):
+                cls_f = "subgraph-lists-a-value-twice"
+            ctx.violation(f"C02:check_function:{cls_f}",
                           f"onnx.checker.check_function rejects the FunctionProto of an accepted program: {err[:300]}", replay)
         if not c01_run.single_version_imports(fp.opset_import):
             ctx.violation("C02:function:domain-imported-twice", "FunctionProto imports a domain more than once", replay)
         top_domains = {n.domain for n in fp.node}
         imported = {o.domain for o in fp.opset_import}
-        hints = {"input_returned": "returned-through-alias-while-parameter-name-rebound"
+        hints = {"wf": "subgraph-lists-a-value-twice" if c01_run.subgraph_lists_value_twice(fp) else "other",
+                 "input_returned": "returned-through-alias-while-parameter-name-rebound"
                  if any(o in set(fp.input) and o in c01_run.names_assigned(f) for o in fp.output) else "other",
                  "imports": "domain-used-only-in-subgraph" if top_domains <= imported else "other"}
         coll.add(graphlit.function_lit(fp), graphlit.imports_lit(fp.opset_import),
@@ -108,6 +112,8 @@ def observe_accepted(ctx, mod, prog, source, stream, kind, coll, stats):
                 key = "C02:check_model:attribute-parameter-reference-left-in-model-graph"
             elif cls == "inference-error" and c01_run.loops_listed_in_two_orders(f, mod):
                 key = "C02:check_model:loop-state-listed-in-two-orders"
+            elif c01_run.subgraph_lists_value_twice(fp):
+                key = "C02:check_model:subgraph-lists-a-value-twice"
             else:
                 key = f"C02:check_model:{cls}"
             ctx.violation(key, f"onnx.checker.check_model(full_check=True) rejects the ModelProto of an accepted program: {err[:300]}", replay)
@@ -120,7 +126,7 @@ def observe_accepted(ctx, mod, prog, source, stream, kind, coll, stats):
                  dict(replay, proto="model", nodes=len(mp.graph.node), hints=dict(hints, imports="other")))
         for lf in mp.functions:
             coll.add(graphlit.function_lit(lf), graphlit.imports_lit(lf.opset_import),
-                     dict(replay, proto="model-local-function", function=lf.name, nodes=len(lf.node), hints={"input_returned": "other", "imports": "other"}))
+                     dict(replay, proto="model-local-function", function=lf.name, nodes=len(lf.node), hints={"wf": "other", "input_returned": "other", "imports": "other"}))
 
 
 def model_has_attr_refs(mp):
@@ -167,6 +173,8 @@ def eval_checkers(ctx, coll, stats):
                 bad_total[name] += 1
                 proto = meta["proto"].replace("model-local-function", "function")
                 key = f"C02:{name}:{proto}"
+                if name == "wf_graphb" and meta["hints"].get("wf", "other") != "other":
+                    key += ":" + meta["hints"]["wf"]
                 if name == "no_input_returned":
                     key += ":" + meta["hints"]["input_returned"]
                 elif name == "imports_ok":
